@@ -185,6 +185,7 @@ func genPackets(repo string) (src string, notes []string, err error) {
 		{"IBCMiddleware.OnAcknowledgementPacket", "mwOnAcknowledgementPacket"},
 		{"IBCMiddleware.OnTimeoutPacket", "mwOnTimeoutPacket"},
 		{"IBCMiddleware.savePacket", "mwSavePacket"},
+		{"IBCMiddleware.isForwarded", "mwIsForwarded"},
 	})
 	emitSkeletons(&b, &notes, dk, "x/delayedack/keeper", cfg, []skelFn{
 		{"Keeper.GetValidTransferWithFinalizationInfo", "getValidTransferWithFinalizationInfo"},
